@@ -14,6 +14,8 @@ Driver for C19. Ops (kept in step with go/internal/c19):
   header frames sorted, data frames in stream order, what the wrapper returned to the consumer.
   msg = kind/id/api/pseudo,…/host/cl/te/hdrs/reads  (see `parseMsg`).
 * `m <msg>` … `rung <n>` — the same under a controlled schedule of the harness.
+* `m <msg>` … `runstall <ms>.<k>` — the same, the stream's writer blocked for `ms` milliseconds inside its k-th `Write`
+  (in the model a pending send stays pending for as long as `Write` takes: nothing is lost).
 * every run op may carry what the run decided: `ord=<i,i,…>` (the message each `Write` of the writer goroutine belonged
   to, in order) and `ts=<hex,…>` (each message's `:timestamp` value), `ho=<names>/…` (the iteration order of each message's header map). With `ord` the model's goroutine system
   (`Marbl.Sys`) replays that schedule — each sender's channel sends in program order, `take i; write` per entry, then
@@ -233,6 +235,7 @@ def step (s : St) (toks : List String) : St × String :=
   | "runmod" :: x => ([], runOp s x)   -- through marbl.Modifier: same frames, ids canonicalised by the harness
   | "runws" :: x => ([], runOp s x true)    -- into marbl.Handler (retains the slices) + websocket subscriber: same frames
   | "rung" :: _ :: x => ([], runOp s x)     -- controlled schedule: same frames
+  | "runstall" :: _ :: x => ([], runOp s x) -- the writer is stalled (wall clock) inside one Write: same frames, senders wait
   | _ => (s, "bad-op")
 
 end Martian.Drv.C19
